@@ -259,8 +259,45 @@ func H_C04_parse() {
 	}
 }
 
+// H_C04_parse_all: any subset of the four parameters, each a one-byte value: the parsed
+// conditions are exactly those supplied, and "must not exist" depends on ifGenerationMatch alone.
+func H_C04_parse_all() {
+	names := []string{"ifGenerationMatch", "ifGenerationNotMatch", "ifMetagenerationMatch", "ifMetagenerationNotMatch"}
+	vals := url.Values{}
+	var set [4]bool
+	var digit [4]byte
+	for i, n := range names {
+		if vChoice("param.set", 0, 1) == 1 {
+			set[i] = true
+			digit[i] = vNondetByte("digit")
+			vAssume(vAnd(digit[i] >= '0', digit[i] <= '9'))
+			vals[n] = []string{string([]byte{digit[i]})}
+		}
+	}
+	conds, err := parseConds(vals)
+	vAssert(err == nil, "digits-parse")
+	if err != nil {
+		return
+	}
+	got := []int64{conds.GenerationMatch, conds.GenerationNotMatch, conds.MetagenerationMatch, conds.MetagenerationNotMatch}
+	for i := range names {
+		want := int64(0)
+		if set[i] {
+			want = int64(digit[i] - '0')
+		}
+		vAssert(got[i] == want, "each-parameter-parsed-independently")
+	}
+	wantDNE := false
+	if set[0] {
+		wantDNE = digit[0] == '0'
+	}
+	vAssert(conds.DoesNotExist == wantDNE, "must-not-exist-iff-ifGenerationMatch-is-zero")
+	vReach("c04-parse-all")
+}
+
 var vHarnesses = map[string]func(){
-	"H_C04_ops":    H_C04_ops,
-	"H_C04_source": H_C04_source,
-	"H_C04_parse":  H_C04_parse,
+	"H_C04_parse_all": H_C04_parse_all,
+	"H_C04_ops":       H_C04_ops,
+	"H_C04_source":    H_C04_source,
+	"H_C04_parse":     H_C04_parse,
 }
